@@ -4,11 +4,11 @@ package main
 // through quoting; parser, scanner and literal package agree.
 
 import (
-	"regexp"
 	"fmt"
 	"math/rand/v2"
 	"os"
 	"path/filepath"
+	"regexp"
 	"strings"
 	"time"
 	"unicode/utf8"
